@@ -161,6 +161,10 @@ const TYS: &[Ty] = &[
     Ty { txt: "[u32; 0]", size: |_| 0, align: |_| 4, arrayish: true },
     Ty { txt: "unknown<5>", size: |_| 5, align: |_| 1, arrayish: true },
     Ty { txt: "void", size: |_| 0, align: |_| 1, arrayish: false },
+    // an extern type whose alignment is not a power of two, and an empty struct (zero-sized, pointer-aligned, not an array):
+    // both were the triggers of seeded changes (C03-5, C01-5) that the families could not show an input for
+    Ty { txt: "Odd", size: |_| 6, align: |_| 3, arrayish: false },
+    Ty { txt: "Marker", size: |_| 0, align: |p| p as u128, arrayish: false },
 ];
 #[derive(Clone)]
 struct LayoutCase { fields: Vec<(usize, Option<u128>)>, size: Option<u128>, align: Option<u128>, packed: bool, vftable: bool }
@@ -171,6 +175,8 @@ fn layout_src(c: &LayoutCase) -> String {
     if let Some(x) = c.size { attrs.push(format!("size({x})")); }
     if let Some(x) = c.align { attrs.push(format!("align({x})")); }
     if c.packed { attrs.push("packed".into()); }
+    if c.fields.iter().any(|(t, _)| TYS[*t].txt == "Odd") { s.push_str("#[size(6), align(3)]\nextern type Odd;\n"); }
+    if c.fields.iter().any(|(t, _)| TYS[*t].txt == "Marker") { s.push_str("pub type Marker {}\n"); }
     if !attrs.is_empty() { s.push_str(&format!("#[{}]\n", attrs.join(", "))); }
     s.push_str("pub type T {\n");
     if c.vftable { s.push_str("    vftable { pub fn vf(&self); },\n"); }
@@ -222,6 +228,11 @@ fn layout_check(c: &LayoutCase, ptr: usize, props: &str, out: &mut Vec<Fail>) {
     let fail = |e: String, a: String, out: &mut Vec<Fail>| out.push(Fail { family: "layout", input: src.clone(), ptr, expected: e, actual: a });
     match (&o, &exp) {
         (Outcome::Panic(m), _) => { if props.contains("C12") || props.contains("C03") { fail("no panic".into(), format!("PANIC({m})"), out) } }
+        // a field type whose alignment is not a power of two (only an extern type can claim one) has no Rust counterpart:
+        // the code asks for an effective alignment that is a common multiple of the field alignments, the property says
+        // "not smaller than any"; the two agree on powers of two (lemma_alignment_accepts_iff_realisable) and nothing is
+        // expected about *rejections* outside that domain.  Acceptance is still held against the reference.
+        (Outcome::Err(_), Some(_)) if c.fields.iter().any(|(t, _)| { let a = (TYS[*t].align)(ptr); a & (a - 1) != 0 }) => {}
         (Outcome::Err(m), Some(e)) => { if props.contains("C03") { fail(format!("accepted (size {}, align {})", e.size, e.align), format!("ERR({m})"), out) } }
         (Outcome::Ok(st), None) => {
             if props.contains("C03") { fail("rejected".into(), "accepted".into(), out) }
